@@ -333,6 +333,7 @@ fn ob_line(w: &World, slot_before_fp: &[(usize, String)], so: &StepOut, op_slot:
 fn do_step(w: &mut World, slot: usize, op: &Op, out: &mut impl std::io::Write) -> bool {
     let before: Vec<(usize, String)> = w.slots.iter().enumerate().filter_map(|(i, c)| c.as_ref().map(|c| (i, fingerprint(c)))).collect();
     writeln!(out, "OP {} {}", slot, op.line()).unwrap();
+    out.flush().unwrap();     // so that the operation is on record if the implementation crashes the process
     let so = exec(w, slot, op);
     let line = ob_line(w, &before, &so, slot);
     writeln!(out, "{}", line).unwrap();
